@@ -147,8 +147,16 @@ theorem deref_leafref_dangling (env : Env) (cx : Cx) (hq : env.q.derefErr = true
     (h : env.leafrefTargets x = some []) : callFn (N := N) env cx "deref" [.ns (x :: rest)] = .error .inval := by
   rw [callFn_deref, derefFn_leafref env x rest _ h]; simp [hq]
 
-/-- a leafref path (no predicates) is evaluated exactly like the same location path in an expression -/
-theorem walk_nil (env : Env) (s : List Ref) : env.walk [] s = s := rfl
+/-- the path of a leafref (`Env.walk`, used by `deref`) selects exactly what the same predicate-free location path selects when it is
+written in an expression (`evalSteps`, XPath 1.0 step semantics) -/
+theorem deref_path_is_location_path (env : Env) (hq : env.q.predMerged = false) (steps : List (Axis × Test)) (s : List Ref) :
+    evalSteps (N := N) env (steps.map fun p => .mk p.1 p.2 []) s = .ok (env.walk steps s) :=
+  walk_eq_evalSteps env hq steps s
+
+example {N : Type} [XNum N] (env : Env) (hq : env.q.predMerged = false) (x : Ref) :
+    evalSteps (N := N) env [.mk .parent .node [], .mk .child (.name none [0x74]) []] [x] =
+      .ok (env.walk [(.parent, .node), (.child, .name none [0x74])] [x]) :=
+  deref_path_is_location_path env hq [(.parent, .node), (.child, .name none [0x74])] [x]
 
 /-- RFC 7950 §10.1.1 `current()`: the initial context node of the whole expression, whatever the context (node, position, size) of
 the place where it is called -/
